@@ -585,7 +585,7 @@ pub open spec fn lift_input(x: ExecutionResult) -> Seq<RuntimeBoxedVal> { unique
                 r->Ok_0@ == lift_oks(old(self).passes().log().len(), lift_input(execution_result).len()),      //@ob C06.tcl.lift.ok_is_the_run_results_in_order
             every_poll_continued(old(self).wd(), final(self).wd()) && r is Err ==> by_location(r->Err_0.log())
                 && r->Err_0.log().to_multiset() == lift_errs(old(self).passes().log().len(), lift_input(execution_result).len()),      //@ob C17.tcl.lift.collects_every_pass_error
-//@loop 1
+//@loop 1 kind=while
             invariant
                 polling_interval == old(self).wd().interval() && polling_interval >= 1 && self.wd().interval() == old(self).wd().interval(),
                 self.st() == old(self).st(),
@@ -640,7 +640,7 @@ pub open spec fn lift_input(x: ExecutionResult) -> Seq<RuntimeBoxedVal> { unique
             every_poll_continued(old(self).wd(), final(self).wd()) ==> r is Ok && final(self).registered_since(old(self)) == values@.len()
                 && polls_made(old(self).wd(), final(self).wd()) == polls_due(values@.len(), old(self).every()),      //@ob C13.tcl.assign_vars.polls_once_per_interval
             r is Ok ==> every_poll_continued(old(self).wd(), final(self).wd()),                                        //@ob C13.tcl.assign_vars.ok_only_if_every_poll_continued
-//@loop 1
+//@loop 1 kind=while
             invariant
                 polling_interval == old(self).wd().interval() && polling_interval >= 1 && self.wd().interval() == old(self).wd().interval(),
                 counter as nat + values@.len() == vx_all.len() && vx_all.len() <= usize::MAX,                                        //@ob C01.tcl.assign_vars.loop.counter_bounded_by_the_collection
@@ -706,7 +706,7 @@ let vx_it = $3; let mut vx_i: usize = 0;
             every_poll_continued(old(self).wd(), final(self).wd()) ==>
                 polls_made(old(self).wd(), final(self).wd()) == polls_due(final(self).inferred_since(old(self)) as nat, old(self).every()),      //@ob C13.tcl.infer.polls_once_per_interval
             r is Ok ==> every_poll_continued(old(self).wd(), final(self).wd()),                                        //@ob C13.tcl.infer.ok_only_if_every_poll_continued
-//@loop 1
+//@loop 1 kind=while
             invariant
                 polling_interval == old(self).wd().interval() && polling_interval >= 1 && self.wd().interval() == old(self).wd().interval(),
                 vx_i <= vx_it.len() && vx_it@ =~= old(self).st().vals(),                                                             //@ob C13.tcl.infer.loop.values_in_order
@@ -820,7 +820,7 @@ AbiValue::Packed($1) => { let vx_ts = $2; let mut vx_k: usize = 0; let ghost vx_
             r is Ok ==> r->Ok_0.entries() == r->Ok_0.adds().to_multiset(),      //@ob C06.tcl.unify.the_layout_holds_exactly_the_added_entries
             // ---- C05: no phantom slots ----
             r is Ok ==> attributable(r->Ok_0.adds(), final(self).st().vals()),      //@ob C05.tcl.unify.entries_only_for_constant_slots
-//@loop 2
+//@loop 2 kind=while
             invariant
                 polling_interval == old(self).wd().interval() && polling_interval >= 1 && self.wd().interval() == old(self).wd().interval(),
                 vx_i <= vx_it.len() && vx_it@ == csl_filter(self.st().vals()),                                                       //@ob C05.tcl.unify.loop.only_constant_storage_slots C06.tcl.unify.loop.all_constant_storage_slots
